@@ -195,17 +195,24 @@ class PVLEncoder(object):
             (preq, _, posteq) = s.partition("=")
             new_prefix = prefix + preq.strip() + " = "
 
-            # Lines may only be broken at spaces between elements, never at
-            # a space inside a quoted string (that would change its value),
-            # so those spaces are hidden from textwrap behind a placeholder
-            # that no grammar's character set contains.
-            hidden = "\ue000"
+            # Lines may only be broken at spaces between elements.  White
+            # space inside a quoted string is part of its value and must
+            # neither be a break point nor be expanded or dropped, so it is
+            # hidden from textwrap behind placeholders that no grammar's
+            # character set contains.
+            hidden = {
+                ws: chr(0xE000 + i)
+                for i, ws in enumerate(self.grammar.whitespace)
+            }
+
+            def hide(match):
+                text = match.group()
+                for ws, placeholder in hidden.items():
+                    text = text.replace(ws, placeholder)
+                return text
+
             quoted = "|".join(f"{q}[^{q}]*{q}" for q in self.grammar.quotes)
-            value = re.sub(
-                quoted,
-                lambda m: m.group().replace(" ", hidden),
-                posteq.strip()
-            )
+            value = re.sub(quoted, hide, posteq.strip())
 
             lines = textwrap.wrap(
                 value,
@@ -216,7 +223,10 @@ class PVLEncoder(object):
                 break_long_words=False,
                 break_on_hyphens=False,
             )
-            return self.newline.join(lines).replace(hidden, " ")
+            wrapped = self.newline.join(lines)
+            for ws, placeholder in hidden.items():
+                wrapped = wrapped.replace(placeholder, ws)
+            return wrapped
         else:
             return prefix + s
 
